@@ -121,7 +121,7 @@ theorem entrypoints_agree {E : Type} (eng : Engine E) (w : W E) (s t : Bytes) (h
     call are the rows of call 1 followed by the rows of call 2 (the `sim` column excepted), and the final engine state —
     hence the dump and the component list — is the same. -/
 theorem split_invariance {E : Type} (eng : Engine E) (hfree : eng.CallLocalFree) (w : W E) (hdb : w.dbLoaded = true)
-    (a b : Bytes) (hcut : endBoundary a = true) :
+    (a b : Bytes) (hcut : eng.boundary a) :
     let one := (w.run eng (.file (some (a ++ b)))).1
     let w1 := (w.run eng (.file (some a))).1
     let two := (w1.run eng (.file (some b))).1
@@ -134,24 +134,24 @@ theorem split_invariance {E : Type} (eng : Engine E) (hfree : eng.CallLocalFree)
   obtain ⟨o1, o2, o3, o4, -, o6, -⟩ := run_file_fields eng w hdb (a ++ b)
   obtain ⟨a1, a2, a3, a4, a5, -, -⟩ := run_file_fields eng w hdb a
   obtain ⟨b1, b2, b3, b4, -, b6, -⟩ := run_file_fields eng w1 a5 b
-  rw [simulations_append a b hcut] at o1 o2 o3 o4
+  rw [hcut b] at o1 o2 o3 o4
   obtain ⟨hi, hio⟩ := (rc_zero_iff one).1 hrc
   -- the first part of the one-call loop cannot have stopped
-  have hA : (loop eng 1 true w.engine (simulations a)).inputError = 0 := by
+  have hA : (loop eng 1 true w.engine (eng.sims a)).inputError = 0 := by
     apply Classical.byContradiction
     intro hne
     rw [loop_append_stop eng _ _ _ _ _ hne] at o3
     exact hne (o3 ▸ hi)
   rw [loop_append eng _ _ _ _ _ hA] at o1 o2 o3 o4
   simp only [Loop.andThen] at o1 o2 o3 o4
-  obtain ⟨f1, f2, f3, f4⟩ := loop_free eng hfree (simulations b)
-    (loop eng 1 true w.engine (simulations a)).simulation 1 (loop eng 1 true w.engine (simulations a)).firstRead true
-    (loop eng 1 true w.engine (simulations a)).engine
-  have e1 : w1.engine = (loop eng 1 true w.engine (simulations a)).engine := a1
+  obtain ⟨f1, f2, f3, f4⟩ := loop_free eng hfree (eng.sims b)
+    (loop eng 1 true w.engine (eng.sims a)).simulation 1 (loop eng 1 true w.engine (eng.sims a)).firstRead true
+    (loop eng 1 true w.engine (eng.sims a)).engine
+  have e1 : w1.engine = (loop eng 1 true w.engine (eng.sims a)).engine := a1
   rw [e1] at b1 b2 b3 b4
-  have hio' : (loop eng 1 true w.engine (simulations a)).io = 0 ∧
-      (loop eng (loop eng 1 true w.engine (simulations a)).simulation (loop eng 1 true w.engine (simulations a)).firstRead
-        (loop eng 1 true w.engine (simulations a)).engine (simulations b)).io = 0 := by
+  have hio' : (loop eng 1 true w.engine (eng.sims a)).io = 0 ∧
+      (loop eng (loop eng 1 true w.engine (eng.sims a)).simulation (loop eng 1 true w.engine (eng.sims a)).firstRead
+        (loop eng 1 true w.engine (eng.sims a)).engine (eng.sims b)).io = 0 := by
     rw [o4] at hio; omega
   have heng : one.engine = two.engine := by rw [o1, b1, f1]
   refine ⟨?_, ?_, ?_, heng, by rw [heng], ?_⟩
@@ -173,7 +173,7 @@ def runPieces {E : Type} (eng : Engine E) : W E → List Bytes → W E × List N
     (r.1, w1.rc :: r.2.1, w1.tables ++ r.2.2)
 
 theorem split_invariance_n {E : Type} (eng : Engine E) (hfree : eng.CallLocalFree) (ps : List Bytes) (last : Bytes)
-    (hcut : ∀ p ∈ ps, endBoundary p = true) : ∀ (w : W E), w.dbLoaded = true →
+    (hcut : ∀ p ∈ ps, eng.boundary p) : ∀ (w : W E), w.dbLoaded = true →
     (w.run eng (.file (some (ps.flatten ++ last)))).1.rc = 0 →
       (∀ rc ∈ (runPieces eng w (ps ++ [last])).2.1, rc = 0) ∧
       (w.run eng (.file (some (ps.flatten ++ last)))).1.tables.map Row.data =
@@ -184,7 +184,7 @@ theorem split_invariance_n {E : Type} (eng : Engine E) (hfree : eng.CallLocalFre
   | cons p ps ih =>
     intro w hdb hrc
     have hp := hcut p (by simp)
-    have hps : ∀ q ∈ ps, endBoundary q = true := fun q hq => hcut q (by simp [hq])
+    have hps : ∀ q ∈ ps, eng.boundary q := fun q hq => hcut q (by simp [hq])
     simp only [List.flatten_cons, List.append_assoc] at hrc ⊢
     obtain ⟨s1, s2, s3, s4, -, -⟩ := split_invariance eng hfree w hdb p (ps.flatten ++ last) hp hrc
     have hdb1 : (w.run eng (.file (some p))).1.dbLoaded = true := (run_file_fields eng w hdb p).2.2.2.2.1
@@ -262,7 +262,7 @@ theorem deliverAll_eq_runPieces {E : Type} (eng : Engine E) (ds : List Delivery)
     is error-free, every piece returns 0, the data rows agree (minus `sim`) and the final engine state is the same. -/
 theorem split_invariance_deliveries {E : Type} (eng : Engine E) (hfree : eng.CallLocalFree) (w : W E)
     (hdb : w.dbLoaded = true) (hb : w.bufferFresh) (ds : List Delivery) (last : Delivery)
-    (hwf : ∀ d ∈ ds ++ [last], d.wellFormed) (hcut : ∀ d ∈ ds, endBoundary d.text = true)
+    (hwf : ∀ d ∈ ds ++ [last], d.wellFormed) (hcut : ∀ d ∈ ds, eng.boundary d.text)
     (hrc : (w.run eng (.file (some ((ds.map Delivery.text).flatten ++ last.text)))).1.rc = 0) :
     (∀ rc ∈ (W.deliverAll eng w (ds ++ [last])).2.1, rc = 0) ∧
     (w.run eng (.file (some ((ds.map Delivery.text).flatten ++ last.text)))).1.tables.map Row.data =
@@ -272,7 +272,7 @@ theorem split_invariance_deliveries {E : Type} (eng : Engine E) (hfree : eng.Cal
   obtain ⟨d1, d2, d3⟩ := deliverAll_eq_runPieces eng (ds ++ [last]) hwf w w rfl hb
   have hmap : (ds ++ [last]).map Delivery.text = ds.map Delivery.text ++ [last.text] := by simp
   rw [hmap] at d1 d2 d3
-  have hcut' : ∀ p ∈ ds.map Delivery.text, endBoundary p = true := by
+  have hcut' : ∀ p ∈ ds.map Delivery.text, eng.boundary p := by
     intro p hp
     obtain ⟨d, hd, rfl⟩ := List.mem_map.1 hp
     exact hcut d hd
@@ -283,6 +283,91 @@ theorem split_invariance_deliveries {E : Type} (eng : Engine E) (hfree : eng.Cal
   · rw [s3]
     have := congrArg W.engine d1
     simpa [W.modInput] using this.symm
+
+/-! ## include files -/
+
+/-- Cutting the top-level text at a closed line boundary commutes with following the include directives. -/
+theorem readLinesFS_append (fs : Bytes → Option Bytes) (d : Nat) (a b : Bytes) (h : closed a = true) :
+    readLinesFS fs d (a ++ b) = readLinesFS fs d a ++ readLinesFS fs d b := LineReader.readLinesFS_append fs d a b h
+
+/-- … and cutting at an END boundary of the expanded text gives the same simulation list. -/
+theorem simulationsFS_append (fs : Bytes → Option Bytes) (d : Nat) (a b : Bytes) (h : endBoundaryFS fs d a = true) :
+    simulationsFS fs d (a ++ b) = simulationsFS fs d a ++ simulationsFS fs d b := simulationsFS_append' fs d a b h
+
+/-- Without include directives the file system is never consulted. -/
+theorem readLinesFS_plain (fs : Bytes → Option Bytes) (d : Nat) (s : Bytes) (h : ∀ l ∈ readLines s, l.incl = none) :
+    readLinesFS fs d s = (readLines s).map Item.line := readLinesFS_noInclude fs d s h
+
+theorem resolved_flatMap {α : Type} (f : α → List Item) (ls : List α) :
+    resolved (ls.flatMap f) = ls.all (fun l => resolved (f l)) := by
+  induction ls with
+  | nil => rfl
+  | cons l r ih => simp only [List.flatMap_cons, List.all_cons, ← ih]; simp [resolved, List.all_append]
+
+theorem flatMap_congr_mem {α β : Type} {f g : α → List β} (ls : List α) (h : ∀ l ∈ ls, f l = g l) :
+    ls.flatMap f = ls.flatMap g := by
+  induction ls with
+  | nil => rfl
+  | cons l r ih =>
+    simp only [List.flatMap_cons]
+    rw [h l (by simp), ih (fun x hx => h x (by simp [hx]))]
+
+/-- The depth budget is not an assumption about the code: once every directive is resolved within the budget, a larger budget
+    gives the same lines. -/
+theorem include_depth_mono (fs : Bytes → Option Bytes) : ∀ (d : Nat) (s : Bytes),
+    resolved (readLinesFS fs d s) = true → readLinesFS fs (d + 1) s = readLinesFS fs d s := by
+  intro d
+  induction d with
+  | zero =>
+    intro s h
+    have hn : ∀ l ∈ readLines s, l.incl = none := by
+      intro l hl
+      simp only [readLinesFS, resolved, List.all_map, List.all_eq_true] at h
+      have := h l hl
+      cases hi : l.incl with
+      | none => rfl
+      | some f => simp [hi, Item.line?] at this
+    rw [readLinesFS_noInclude fs 1 s hn, readLinesFS_noInclude fs 0 s hn]
+  | succ d ih =>
+    intro s h
+    simp only [readLinesFS] at h ⊢
+    rw [resolved_flatMap] at h
+    simp only [List.all_eq_true] at h
+    apply flatMap_congr_mem
+    intro l hl
+    have hl' := h l hl
+    cases hi : l.incl with
+    | none => rfl
+    | some f =>
+      simp only [hi] at hl' ⊢
+      cases hf : fs f with
+      | none => rfl
+      | some c =>
+        simp only [hf] at hl' ⊢
+        exact ih c hl'
+
+/-- Split invariance with the plain reader (no include directive followed): the hypothesis is `endBoundary`. -/
+theorem split_invariance_plain {E : Type} (eng : Engine E) (hfree : eng.CallLocalFree) (hl : eng.lines = readLines)
+    (w : W E) (hdb : w.dbLoaded = true) (a b : Bytes) (hcut : endBoundary a = true)
+    (hrc : (w.run eng (.file (some (a ++ b)))).1.rc = 0) :
+    ((w.run eng (.file (some a))).1.run eng (.file (some b))).1.rc = 0 ∧
+    (w.run eng (.file (some (a ++ b)))).1.tables.map Row.data =
+      ((w.run eng (.file (some a))).1.tables ++ ((w.run eng (.file (some a))).1.run eng (.file (some b))).1.tables).map Row.data ∧
+    (w.run eng (.file (some (a ++ b)))).1.engine = ((w.run eng (.file (some a))).1.run eng (.file (some b))).1.engine := by
+  obtain ⟨-, h2, h3, h4, -, -⟩ := split_invariance eng hfree w hdb a b (boundary_of_endBoundary eng hl a hcut) hrc
+  exact ⟨h2, h3, h4⟩
+
+/-- Split invariance when include directives are followed through a file system `fs`: the cut is taken in the top-level
+    text, at an END boundary of the expanded line list. -/
+theorem split_invariance_includes {E : Type} (eng : Engine E) (hfree : eng.CallLocalFree) (fs : Bytes → Option Bytes)
+    (d : Nat) (hl : eng.lines = linesFS fs d) (w : W E) (hdb : w.dbLoaded = true) (a b : Bytes)
+    (hcut : endBoundaryFS fs d a = true) (hrc : (w.run eng (.file (some (a ++ b)))).1.rc = 0) :
+    ((w.run eng (.file (some a))).1.run eng (.file (some b))).1.rc = 0 ∧
+    (w.run eng (.file (some (a ++ b)))).1.tables.map Row.data =
+      ((w.run eng (.file (some a))).1.tables ++ ((w.run eng (.file (some a))).1.run eng (.file (some b))).1.tables).map Row.data ∧
+    (w.run eng (.file (some (a ++ b)))).1.engine = ((w.run eng (.file (some a))).1.run eng (.file (some b))).1.engine := by
+  obtain ⟨-, h2, h3, h4, -, -⟩ := split_invariance eng hfree w hdb a b (boundary_of_endBoundaryFS eng fs d hl a hcut) hrc
+  exact ⟨h2, h3, h4⟩
 
 /-! ## non-vacuity -/
 
@@ -357,6 +442,24 @@ example :
     (W.deliverAll toy w0 (ds ++ [last])).2.1 = [0, 0, 0] ∧
     (W.deliverAll toy w0 (ds ++ [last])).1.engine = (w0.run toy (.file (some (textA ++ textB ++ bs "END\n")))).1.engine ∧
     (W.deliverAll toy w0 (ds ++ [last])).1.engine = [3, 4, 1] := by decide +kernel
+
+-- include files: the directive is replaced by the lines of the file (nested once more), a missing file is reported, the
+-- last line of a file without newline stays a line of its own, and a cut of the top-level text behind the directive is a boundary
+def fsEx : Bytes → Option Bytes := fun n =>
+  if n = bs "inc1" then some (bs "SOLUTION 2\nINCLUDE$ inc2\nEND") else if n = bs "inc2" then some (bs " pH 6 # c") else none
+def textI : Bytes := bs "SOLUTION 1\ninclude$  inc1 \nEND\n"
+example : (readLinesFS fsEx 2 textI).map (fun i => (i.line?.map (·.line))) =
+    [some (bs "SOLUTION 1"), some (bs "SOLUTION 2"), some (bs " pH 6 "), some (bs "END"), some (bs "END")] := by decide +kernel
+example : readLinesFS fsEx 3 textI = readLinesFS fsEx 2 textI := include_depth_mono fsEx 2 textI (by decide +kernel)
+example : resolved (readLinesFS fsEx 1 textI) = false ∧ resolved (readLinesFS fsEx 2 (bs "INCLUDE$ nofile\n")) = false := by decide +kernel
+example : (simulationsFS fsEx 2 (textI ++ textB)).map List.length = [4, 1, 4] ∧ endBoundaryFS fsEx 2 textI = true := by decide +kernel
+example : simulationsFS fsEx 2 (textI ++ textB) = simulationsFS fsEx 2 textI ++ simulationsFS fsEx 2 textB :=
+  simulationsFS_append fsEx 2 textI textB (by decide +kernel)
+-- the toy engine reading through that file system: one call vs two calls
+example :
+    let eng : Engine (List Nat) := { toy with lines := linesFS fsEx 2 }
+    (w0.run eng (.file (some (textI ++ textB)))).1.engine = [4, 1, 4] ∧
+    ((w0.run eng (.file (some textI))).1.run eng (.file (some textB))).1.engine = [4, 1, 4] := by decide +kernel
 
 -- without a database every entry point returns 1 and leaves the engine alone
 example : ((({ engine := [] } : W (List Nat)).run toy (.str textA)).2 = 1) := by decide +kernel
